@@ -328,7 +328,8 @@ def stepReg (st : DState) (args : List String) : Option (DState × String) :=
     -- dump of the hand-written reference table (for the independent oracle)
     let lin := Ref.linearUnits.map fun (c, sy, k) => s!"{c}|{sy}|{ratStr k}"
     let tmp := Ref.temperatureUnits.map fun (c, sy) => s!"{c}|{sy}|none"
-    some (st, "ok " ++ " ".intercalate (lin ++ tmp))
+    let dims := Ref.dimensions.map fun (c, d) => s!"#{c}|{d.1}|{d.2.1}|{d.2.2.1}|{d.2.2.2}"
+    some (st, "ok " ++ " ".intercalate (lin ++ tmp ++ dims))
   | ["observe"] => some (st, "ok " ++ observe r)
   | ["unit_info", sym] =>
     match unitId? r sym with
@@ -363,6 +364,30 @@ def stepReg (st : DState) (args : List String) : Option (DState × String) :=
       match parseQty? r d a, unitId? r u with
       | some (.ok a), some u => some (st, showQRes r (q.convert d a u))
       | some (.error e), some _ => some (st, "err " ++ e.name)
+      | _, _ => some (st, bad)
+  | ["q_conv3", a, v, w, dflt] =>
+    match Rounding.ofName? dflt with
+    | none => some (st, bad)
+    | some d =>
+      match parseQty? r d a, unitId? r v, unitId? r w with
+      | some (.ok a), some v, some w =>
+        some (st, showQRes r ((q.convert d a v).bind fun m => q.convert d m w))
+      | some (.error e), _, _ => some (st, "err " ++ e.name)
+      | _, _, _ => some (st, bad)
+  | ["q_convback", a, v, dflt] =>
+    match Rounding.ofName? dflt with
+    | none => some (st, bad)
+    | some d =>
+      match parseQty? r d a, unitId? r v with
+      | some (.ok a), some v =>
+        match q.convert d a v with
+        | .error e => some (st, "err " ++ e.name)
+        | .ok m =>
+          match q.convert d m a.unit, q.qtyEq a m with
+          | .ok b, .ok e => some (st, s!"ok {showVal r (.qty b)} eq={e}")
+          | .error e, _ => some (st, "err " ++ e.name)
+          | _, .error e => some (st, "err " ++ e.name)
+      | some (.error e), _ => some (st, "err " ++ e.name)
       | _, _ => some (st, bad)
   | ["q_equiv", a, u, dflt] =>
     match Rounding.ofName? dflt with
@@ -425,6 +450,27 @@ def stepReg (st : DState) (args : List String) : Option (DState × String) :=
         some (st, showVRes r v)
       | some (.error e), some _ => some (st, "err " ++ e.name)
       | _, _ => some (st, bad)
+  | ["q_mixnum", op, _a, _kind] =>
+    let mop : Option QState.MixOp := match op with
+      | "add" => some .add | "radd" => some .radd | "sub" => some .sub | "rsub" => some .rsub
+      | "lt" => some .lt | "le" => some .le | "gt" => some .gt | "ge" => some .ge
+      | "eq" => some .eq | "ne" => some .ne | _ => none
+    mop.map fun m => (st, showBRes (QState.qtyVsNumber m))
+  | ["q_sum", items, dflt] =>
+    match Rounding.ofName? dflt with
+    | none => some (st, bad)
+    | some d =>
+      let toks := if items == "-" then [] else items.splitOn ","
+      match toks.mapM (parseQty? r d) with
+      | none => some (st, bad)
+      | some qs =>
+        match qs.mapM id with
+        | .error e => some (st, "err " ++ e.name)
+        | .ok qs =>
+          match q.qtySum d qs with
+          | .error e => some (st, "err " ++ e.name)
+          | .ok none => some (st, "ok num 0/1")
+          | .ok (some x) => some (st, "ok " ++ showVal r (.qty x))
   | ["q_quantize", a, quant, mode, dflt] =>
     match Rounding.ofName? dflt, parseMode? mode with
     | some d, some m =>
